@@ -35,15 +35,20 @@ VARIABLES msg, hist, base, ckpt, owner, rb, cpos, cheld, termT, gvtSeen, gvtCnt,
           snap,   \* lp -> model states saved by the checkpoints (aligned with ckpt[lp])
           crem,   \* lp -> events until the next checkpoint
           fneed,  \* lp -> a GVT arrived since the last fossil collection of the LP (fossil_is_needed)
+          rseq,   \* thr -> rank -> number of messages put on the network for that rank (remote_msg_seq of gvt.h)
           err     \* a property check of an action failed: <<property, label>>
 
 TW == INSTANCE TimeWarp WITH Threads <- ThreadsC, NLp <- NLpC, Inf <- 1000000
 twvars == <<msg, hist, base, ckpt, owner, rb, cpos, cheld, termT, gvtSeen, gvtCnt, gvtVals, finiLp, finiQ, votes,
             stopped, exited, hand, voted, maxDecl, mustVote, announced, net, rx, lastNm, early>>
-mcvars == <<pc, loc, lpst, snap, crem, fneed, err>>
+mcvars == <<pc, loc, lpst, snap, crem, fneed, rseq, err>>
 vars == <<twvars, mcvars>>
 
 LPs == 0..(NLpC - 1)
+\* threads are numbered rank * 8 + rid (as in the traces of the multi-rank harness)
+RankOf(r) == r \div 8
+Ranks == {RankOf(r) : r \in ThreadsC}
+Remote(r, p) == RankOf(OwnerOf[p]) # RankOf(r)
 NoLoc == [lp |-> -1, m |-> 0, old |-> 0, past |-> 0, i |-> 0, sends |-> <<>>, after |-> "none", t |-> 0, fl |-> <<>>]
 Ghost(st) == [s |-> st.s, cnt |-> st.cnt, a |-> 0, b |-> 0, blk |-> 0]
 
@@ -67,6 +72,7 @@ Init ==
   /\ snap = [p \in LPs |-> <<>>]
   /\ crem = [p \in LPs |-> 0]
   /\ fneed = [p \in LPs |-> FALSE]
+  /\ rseq = [r \in ThreadsC |-> [k \in Ranks |-> 0]]
   /\ err = <<>>
 
 \* process_lp_init: the LP_INIT handler runs first and schedules the initial events of the LP (recorded in its
@@ -76,7 +82,7 @@ InitStart(r) ==
   /\ pc[r] = "init" /\ NextInitLp(r) # {}
   /\ LET p == TW!Min(NextInitLp(r)) IN
        Goto(r, "sched", [NoLoc EXCEPT !.sends = SelectSeq(InitEv, LAMBDA e : e.src = p), !.after = "initlp", !.lp = p])
-  /\ UNCHANGED <<twvars, lpst, snap, crem, fneed, err>>
+  /\ UNCHANGED <<twvars, lpst, snap, crem, fneed, rseq, err>>
 InitLp(r) ==
   /\ pc[r] = "initlp" /\ PoolOk
   /\ LET p == loc[r].lp
@@ -89,13 +95,13 @@ InitLp(r) ==
      /\ snap' = [snap EXCEPT ![p] = <<lpst[p]>>]
   /\ Goto(r, "init", NoLoc)
   /\ UNCHANGED <<base, rb, cpos, cheld, termT, gvtSeen, gvtCnt, gvtVals, finiLp, finiQ, votes, stopped, exited, hand, voted, maxDecl,
-                 mustVote, announced, net, rx, lastNm, early, lpst, crem, fneed, err>>
+                 mustVote, announced, net, rx, lastNm, early, lpst, crem, fneed, rseq, err>>
 \* barrier after lp_init: the main loop starts once every LP exists
 AllInited == \A p \in LPs : owner[p] # -1
 InitDone(r) ==
   /\ pc[r] = "init" /\ NextInitLp(r) = {} /\ AllInited
   /\ Goto(r, "idle", NoLoc)
-  /\ UNCHANGED <<twvars, lpst, snap, crem, fneed, err>>
+  /\ UNCHANGED <<twvars, lpst, snap, crem, fneed, rseq, err>>
 
 (* ---------------- ScheduleNewEvent: alloc, CAS push (shared), record in the sender's history ---------------- *)
 SchedAlloc(r) ==
@@ -103,24 +109,58 @@ SchedAlloc(r) ==
   /\ LET m == FreeId IN
      /\ Do(TW!AllocChecks(r, m), TW!Alloc(r, m))
      /\ Goto(r, "push", [loc[r] EXCEPT !.m = m])
-  /\ UNCHANGED <<lpst, snap, crem, fneed>>
+  /\ UNCHANGED <<lpst, snap, crem, fneed, rseq>>
+\* the network: ids 1..MaxMsg recycled smallest first; per (sender thread, destination rank) FIFO (MPI non-overtaking)
+NetFree == CHOOSE i \in 1..MaxMsg : i \notin DOMAIN net /\ \A j \in 1..(i - 1) : j \in DOMAIN net
+NetOk == \E i \in 1..MaxMsg : i \notin DOMAIN net
 SchedPush(r) ==
   /\ pc[r] = "push"
   /\ LET e == Head(loc[r].sends)
-         c == [lp |-> e.lp, t |-> e.t, ty |-> e.ty, pid |-> e.pid] IN
-     /\ Do(TW!PushChecks(r, loc[r].m, OwnerOf[e.lp], c), TW!Push(r, loc[r].m, OwnerOf[e.lp], c))
+         c == [lp |-> e.lp, t |-> e.t, ty |-> e.ty, pid |-> e.pid]
+         k == RankOf(OwnerOf[e.lp]) IN
+     /\ IF Remote(r, e.lp)
+        THEN \* mpi_remote_msg_send: gvt_remote_msg_send stamps identity and sequence number, MPI_Isend
+             LET x == [kind |-> "ev", t |-> e.t, id |-> 4 * (r + 1), sq |-> 2 * rseq[r][k], src |-> r, nm |-> NetFree, lp |-> e.lp, ty |-> e.ty,
+                       pid |-> e.pid, ord |-> rseq[r][k], to |-> k] IN
+             /\ NetOk
+             /\ Do(TW!NetSendChecks(r, x.nm, x), TW!NetSend(r, x.nm, x))
+             /\ rseq' = [rseq EXCEPT ![r][k] = @ + 1]
+        ELSE /\ Do(TW!PushChecks(r, loc[r].m, OwnerOf[e.lp], c), TW!Push(r, loc[r].m, OwnerOf[e.lp], c))
+             /\ UNCHANGED rseq
      /\ Goto(r, "sent", loc[r])
   /\ UNCHANGED <<lpst, snap, crem, fneed>>
 SchedSent(r) ==
   /\ pc[r] = "sent"
-  /\ LET e == Head(loc[r].sends) IN
-     /\ Do(TW!SendChecks(r, e.src, loc[r].m), TW!Send(r, e.src, loc[r].m))
+  /\ LET e == Head(loc[r].sends)
+         c == [lp |-> e.lp, t |-> e.t, ty |-> e.ty, pid |-> e.pid] IN
+     /\ IF Remote(r, e.lp)
+        THEN Do(TW!SendRemoteChecks(r, e.src, loc[r].m, c), TW!SendRemote(r, e.src, loc[r].m, c))
+        ELSE Do(TW!SendChecks(r, e.src, loc[r].m), TW!Send(r, e.src, loc[r].m))
      /\ Goto(r, "sched", [loc[r] EXCEPT !.sends = Tail(@), !.m = 0])
-  /\ UNCHANGED <<lpst, snap, crem, fneed>>
+  /\ UNCHANGED <<lpst, snap, crem, fneed, rseq>>
+
+(* ---------------- mpi_remote_msg_handle: any thread of the destination rank receives, allocates, inserts ---------------- *)
+Receivable(r) == {nm \in DOMAIN net : net[nm].to = RankOf(r) /\ \A o \in DOMAIN net : (net[o].src = net[nm].src /\ net[o].to = net[nm].to) => net[o].ord >= net[nm].ord}
+RecvStep(r) ==
+  /\ pc[r] = "idle"
+  /\ \E nm \in Receivable(r) : Do(TW!NetRecvChecks(r, nm), TW!NetRecv(r, nm))
+  /\ Goto(r, "rxalloc", NoLoc)
+  /\ UNCHANGED <<lpst, snap, crem, fneed, rseq>>
+RxAlloc(r) ==
+  /\ pc[r] = "rxalloc" /\ PoolOk
+  /\ Do(TW!AllocChecks(r, FreeId), TW!Alloc(r, FreeId))
+  /\ Goto(r, "rxpush", [NoLoc EXCEPT !.m = FreeId])
+  /\ UNCHANGED <<lpst, snap, crem, fneed, rseq>>
+RxPush(r) ==
+  /\ pc[r] = "rxpush"
+  /\ LET c == [lp |-> rx[r].lp, t |-> rx[r].t, ty |-> rx[r].ty, pid |-> rx[r].pid] IN
+     Do(TW!PushChecks(r, loc[r].m, OwnerOf[c.lp], c), TW!Push(r, loc[r].m, OwnerOf[c.lp], c))
+  /\ Goto(r, "idle", NoLoc)
+  /\ UNCHANGED <<lpst, snap, crem, fneed, rseq>>
 SchedEnd(r) ==
   /\ pc[r] = "sched" /\ loc[r].sends = <<>>
   /\ Goto(r, loc[r].after, [loc[r] EXCEPT !.after = "none"])
-  /\ UNCHANGED <<twvars, lpst, snap, crem, fneed, err>>
+  /\ UNCHANGED <<twvars, lpst, snap, crem, fneed, rseq, err>>
 
 (* ---------------- process_msg ---------------- *)
 \* msg_queue_extract: exchange of the inbox (shared), then pop the minimum of the private heap
@@ -128,7 +168,7 @@ DrainStep(r) ==
   /\ pc[r] = "idle" /\ TW!InboxOf(r) # {}
   /\ Do(TW!DrainChecks(r, Cardinality(TW!InboxOf(r))), TW!Drain(r, Cardinality(TW!InboxOf(r))))
   /\ Goto(r, "pop", NoLoc)
-  /\ UNCHANGED <<lpst, snap, crem, fneed>>
+  /\ UNCHANGED <<lpst, snap, crem, fneed, rseq>>
 EvOf(m) == [t |-> msg[m].t, ty |-> msg[m].ty, pid |-> msg[m].pid]
 \* q_elem_is_before: anti-messages first at equal time, then the content order
 QBefore(a, b) ==
@@ -142,8 +182,8 @@ PopStep(r) ==
        /\ \A x \in TW!HeapOf(r) : ~QBefore(x, m)
        /\ Do(TW!ExtractChecks(r, m), TW!Extract(r, m))
        /\ Goto(r, IF fneed[msg[m].lp] THEN "fossil" ELSE "flag", [NoLoc EXCEPT !.m = m, !.lp = msg[m].lp])
-  /\ UNCHANGED <<lpst, snap, crem, fneed>>
-PopNone(r) == pc[r] = "pop" /\ TW!HeapOf(r) = {} /\ Goto(r, "idle", NoLoc) /\ UNCHANGED <<twvars, lpst, snap, crem, fneed, err>>
+  /\ UNCHANGED <<lpst, snap, crem, fneed, rseq>>
+PopNone(r) == pc[r] = "pop" /\ TW!HeapOf(r) = {} /\ Goto(r, "idle", NoLoc) /\ UNCHANGED <<twvars, lpst, snap, crem, fneed, rseq, err>>
 
 \* index arithmetic of match_straggler_msg / match_anti_msg (0-based C indexes; entry j of hist is C index j-1)
 RECURSIVE MS(_, _, _)
@@ -164,43 +204,93 @@ FlagStep(r) ==
          f == msg[m].flags IN
      /\ Do(TW!FlagChecks(r, m, f), TW!Flag(r, m, f))
      /\ IF TW!HasAnti(f)
-        THEN IF f = 3 THEN Goto(r, "rbbegin", [loc[r] EXCEPT !.past = MatchAnti(p, m), !.after = "free", !.t = msg[m].t])
+        THEN IF f > 3 THEN Goto(r, "ranti", loc[r])    \* handle_remote_anti_msg
+             ELSE IF f = 3 THEN Goto(r, "rbbegin", [loc[r] EXCEPT !.past = MatchAnti(p, m), !.after = "free", !.t = msg[m].t])
              ELSE Goto(r, "free", loc[r])
+        ELSE IF f # 0 /\ \E am \in early[p] : TW!SameRemote(m, am)   \* check_early_anti_messages
+             THEN Goto(r, "ematch", loc[r])
         ELSE IF hist[p] # <<>> /\ Before(EvOf(m), [t |-> LastE(p).t, ty |-> LastE(p).ty, pid |-> LastE(p).pid])
              THEN Goto(r, "rbbegin", [loc[r] EXCEPT !.past = MatchStraggler(p, m), !.after = "exec", !.t = msg[m].t])
              ELSE Goto(r, "exec", loc[r])
-  /\ UNCHANGED <<lpst, snap, crem, fneed>>
+  /\ UNCHANGED <<lpst, snap, crem, fneed, rseq>>
+
+\* handle_remote_anti_msg: newest history entry with the identity of the anti-message; none: it is early
+RAntiStep(r) ==
+  /\ pc[r] = "ranti"
+  /\ LET p == loc[r].lp
+         am == loc[r].m
+         J == {i \in 1..Len(hist[p]) : hist[p][i].k = "e" /\ TW!SameRemote(hist[p][i].m, am)} IN
+     IF J = {}
+     THEN /\ Do(TW!EarlyStoreChecks(r, p, am), TW!EarlyStore(r, p, am))
+          /\ Goto(r, "idle", NoLoc)
+     ELSE LET j == TW!Max(J)
+              x == hist[p][j].m
+              past == MA(p, j - 1) IN
+          /\ Do(TW!RAntiMatchChecks(r, p, x, am, past), TW!RAntiMatch(r, p, x, am, past))
+          /\ Goto(r, "rbbegin", [loc[r] EXCEPT !.past = past, !.after = "free2", !.old = x, !.t = msg[am].t])
+  /\ UNCHANGED <<lpst, snap, crem, fneed, rseq>>
+\* check_early_anti_messages: the event meets its parked anti-message
+EMatchStep(r) ==
+  /\ pc[r] = "ematch"
+  /\ LET p == loc[r].lp
+         m == loc[r].m
+         am == CHOOSE a \in early[p] : TW!SameRemote(m, a) IN
+     /\ Do(TW!EarlyMatchChecks(r, p, m, am), TW!EarlyMatch(r, p, m, am))
+     /\ Goto(r, "free2", [loc[r] EXCEPT !.old = am])
+  /\ UNCHANGED <<lpst, snap, crem, fneed, rseq>>
+Free2Step(r) ==
+  /\ pc[r] = "free2"
+  /\ Do(TW!FreeChecks(r, loc[r].old), TW!Free(r, loc[r].old))
+  /\ Goto(r, "free", [loc[r] EXCEPT !.old = 0])
+  /\ UNCHANGED <<lpst, snap, crem, fneed, rseq>>
 
 FreeStep(r) ==
   /\ pc[r] = "free"
   /\ Do(TW!FreeChecks(r, loc[r].m), TW!Free(r, loc[r].m))
   /\ Goto(r, "idle", NoLoc)
-  /\ UNCHANGED <<lpst, snap, crem, fneed>>
+  /\ UNCHANGED <<lpst, snap, crem, fneed, rseq>>
 
 (* ---------------- do_rollback ---------------- *)
 RbBeginStep(r) ==
   /\ pc[r] = "rbbegin"
   /\ Do(TW!RbBeginChecks(r, loc[r].lp, loc[r].past), TW!RbBegin(r, loc[r].lp, loc[r].past))
   /\ Goto(r, "rbloop", [loc[r] EXCEPT !.i = loc[r].past + 1])
-  /\ UNCHANGED <<lpst, snap, crem, fneed>>
+  /\ UNCHANGED <<lpst, snap, crem, fneed, rseq>>
 \* send_anti_messages: one shared access per entry, then (when due) the re-insertion
 RbEntry(r) ==
   /\ pc[r] = "rbloop" /\ loc[r].i <= Len(hist[loc[r].lp])
   /\ LET e == hist[loc[r].lp][loc[r].i]
          f == msg[e.m].flags IN
-     IF e.k = "s"
+     IF e.k = "r"
+     THEN \* mpi_remote_anti_msg_send: the anti-message carries the identity and the sequence number of the cancelled send
+          LET k == RankOf(OwnerOf[msg[e.m].lp])
+              x == [kind |-> "anti", t |-> msg[e.m].t, id |-> msg[e.m].flags, sq |-> msg[e.m].sq, src |-> r, nm |-> NetFree, lp |-> msg[e.m].lp, ty |-> 0,
+                    pid |-> -1, ord |-> rseq[r][k], to |-> k] IN
+          /\ NetOk
+          /\ Do(TW!NetSendChecks(r, x.nm, x), TW!NetSend(r, x.nm, x))
+          /\ rseq' = [rseq EXCEPT ![r][k] = @ + 1]
+          /\ Goto(r, "rbanti", [loc[r] EXCEPT !.m = e.m])
+          /\ UNCHANGED <<lpst, snap, crem, fneed>>
+     ELSE IF e.k = "s"
      THEN /\ Do(TW!AntiLocalChecks(r, e.m, f), TW!AntiLocal(r, e.m, f))
           /\ IF TW!AntiNeedsInsert(f) THEN Goto(r, "rbins", [loc[r] EXCEPT !.m = e.m]) ELSE Goto(r, "rbloop", [loc[r] EXCEPT !.i = @ + 1])
+          /\ UNCHANGED <<lpst, snap, crem, fneed, rseq>>
      ELSE /\ Do(TW!UndoChecks(r, e.m, f), TW!Undo(r, e.m, f))
           /\ IF TW!UndoNeedsInsert(f) THEN Goto(r, "rbins", [loc[r] EXCEPT !.m = e.m]) ELSE Goto(r, "rbloop", [loc[r] EXCEPT !.i = @ + 1])
-  /\ UNCHANGED <<lpst, snap, crem, fneed>>
+          /\ UNCHANGED <<lpst, snap, crem, fneed, rseq>>
+\* msg_allocator_free_at_gvt: the sender's buffer of the cancelled remote send is released when the GVT passes it
+RbAnti(r) ==
+  /\ pc[r] = "rbanti"
+  /\ Do(TW!AntiRemoteChecks(r, loc[r].m), TW!AntiRemote(r, loc[r].m))
+  /\ Goto(r, "rbloop", [loc[r] EXCEPT !.i = @ + 1, !.m = hand[r]])
+  /\ UNCHANGED <<lpst, snap, crem, fneed, rseq>>
 RbInsert(r) ==
   /\ pc[r] = "rbins"
   /\ LET m == loc[r].m
          c == [lp |-> msg[m].lp, t |-> msg[m].t, ty |-> msg[m].ty, pid |-> msg[m].pid] IN
      Do(TW!PushChecks(r, m, OwnerOf[msg[m].lp], c), TW!Push(r, m, OwnerOf[msg[m].lp], c))
   /\ Goto(r, "rbloop", [loc[r] EXCEPT !.i = @ + 1, !.m = hand[r]])
-  /\ UNCHANGED <<lpst, snap, crem, fneed>>
+  /\ UNCHANGED <<lpst, snap, crem, fneed, rseq>>
 \* model_allocator_checkpoint_restore + silent_execution: newest checkpoint not after `past', coast forward
 NewestCk(p, past) == TW!Max({k \in 1..Len(ckpt[p]) : ckpt[p][k].ref <= past})
 RECURSIVE Coast(_, _, _, _)
@@ -218,12 +308,12 @@ RbRestore(r) ==
      /\ lpst' = [lpst EXCEPT ![p] = Coast(p, snap[p][k], last, past)]
      /\ snap' = [snap EXCEPT ![p] = SubSeq(@, 1, k)]
      /\ crem' = [crem EXCEPT ![p] = 0]
-  /\ Goto(r, "rbend", loc[r]) /\ UNCHANGED fneed
+  /\ Goto(r, "rbend", loc[r]) /\ UNCHANGED <<fneed, rseq>>
 RbEndStep(r) ==
   /\ pc[r] = "rbend"
   /\ Do(TW!RbEndChecks(r, loc[r].lp, Ghost(lpst[loc[r].lp]), 0, 0), TW!RbEnd(r, loc[r].lp, Ghost(lpst[loc[r].lp])))
   /\ Goto(r, loc[r].after, [loc[r] EXCEPT !.m = hand[r]])
-  /\ UNCHANGED <<lpst, snap, crem, fneed>>
+  /\ UNCHANGED <<lpst, snap, crem, fneed, rseq>>
 
 (* ---------------- forward execution ---------------- *)
 ExecStep(r) ==
@@ -237,7 +327,7 @@ ExecStep(r) ==
      /\ lpst' = [lpst EXCEPT ![p] = ns]
      \* the handler runs first and schedules its events; the event itself is pushed to the history afterwards
      /\ Goto(r, "sched", [loc[r] EXCEPT !.sends = sends, !.after = "execdone"])
-  /\ UNCHANGED <<twvars, snap, crem, fneed, err>>
+  /\ UNCHANGED <<twvars, snap, crem, fneed, rseq, err>>
 ExecDone(r) ==
   /\ pc[r] = "execdone"
   /\ LET p == loc[r].lp
@@ -246,14 +336,14 @@ ExecDone(r) ==
      /\ IF crem[p] + 1 >= CkptEvery
         THEN Goto(r, "ckpt", loc[r]) /\ crem' = [crem EXCEPT ![p] = 0]
         ELSE Goto(r, "idle", NoLoc) /\ crem' = [crem EXCEPT ![p] = @ + 1]
-  /\ UNCHANGED <<lpst, snap, fneed>>
+  /\ UNCHANGED <<lpst, snap, fneed, rseq>>
 CkptStep(r) ==
   /\ pc[r] = "ckpt"
   /\ LET p == loc[r].lp IN
      /\ Do(TW!CkptChecks(r, p, Len(hist[p]), 0), TW!Ckpt(r, p, Len(hist[p]), 0))
      /\ snap' = [snap EXCEPT ![p] = Append(@, lpst[p])]
   /\ Goto(r, "idle", NoLoc)
-  /\ UNCHANGED <<lpst, crem, fneed>>
+  /\ UNCHANGED <<lpst, crem, fneed, rseq>>
 
 \* the sequential execution of the micro-model (reference), as a recursive computation
 PendInit == {[lp |-> InitEv[i].lp, t |-> InitEv[i].t, ty |-> InitEv[i].ty, pid |-> InitEv[i].pid, n |-> i] : i \in 1..Len(InitEv)}
@@ -278,7 +368,7 @@ GvtTick(r) ==
        /\ IF gvtCnt[r] + 1 <= Len(gvtVals) THEN g = gvtVals[gvtCnt[r] + 1] ELSE g > TW!LastGvt
        /\ Do(TW!GvtChecks(r, g), TW!Gvt(r, g))
   /\ fneed' = [p \in LPs |-> IF OwnerOf[p] = r THEN TRUE ELSE fneed[p]]
-  /\ UNCHANGED <<pc, loc, lpst, snap, crem>>
+  /\ UNCHANGED <<pc, loc, lpst, snap, crem, rseq>>
 \* fossil_lp_collect: index arithmetic of src/gvt/fossil.c and model_allocator_fossil_lp_collect
 RECURSIVE LastBelow(_, _, _)
 LastBelow(p, i, g) == IF i = 0 THEN 0 ELSE IF hist[p][i].k = "e" /\ hist[p][i].t < g THEN i ELSE LastBelow(p, i - 1, g)
@@ -301,24 +391,24 @@ FossilStep(r) ==
              /\ snap' = [snap EXCEPT ![p] = SubSeq(@, Len(@) - Len(SelectSeq(ckpt[p], LAMBDA c : c.ref >= n)) + 1, Len(@))]
      /\ fneed' = [fneed EXCEPT ![p] = FALSE]
      /\ Goto(r, IF n = 0 THEN "flag" ELSE "ffree", [loc[r] EXCEPT !.fl = [i \in 1..Len(tofree) |-> tofree[i].m]])
-  /\ UNCHANGED <<lpst, crem>>
+  /\ UNCHANGED <<lpst, crem, rseq>>
 FossilFree(r) ==
   /\ pc[r] = "ffree"
   /\ IF loc[r].fl = <<>>
      THEN Goto(r, "flag", loc[r]) /\ UNCHANGED <<twvars, err>>
      ELSE Do(TW!FreeChecks(r, Head(loc[r].fl)), TW!Free(r, Head(loc[r].fl))) /\ Goto(r, "ffree", [loc[r] EXCEPT !.fl = Tail(@)])
-  /\ UNCHANGED <<lpst, snap, crem, fneed>>
+  /\ UNCHANGED <<lpst, snap, crem, fneed, rseq>>
 
 (* ---------------- scheduling of the steps ---------------- *)
 \* steps that touch memory shared with other threads: the CAS push, the exchange, the fetch_adds
-SharedPc == {"push", "rbins", "flag"}
-IsShared(r) == pc[r] \in SharedPc \/ (pc[r] = "idle" /\ TW!InboxOf(r) # {}) \/ (pc[r] = "rbloop" /\ loc[r].i <= Len(hist[loc[r].lp]))
+SharedPc == {"push", "rbins", "flag", "rxpush"}
+IsShared(r) == pc[r] \in SharedPc \/ (pc[r] = "idle" /\ (TW!InboxOf(r) # {} \/ Receivable(r) # {})) \/ (pc[r] = "rbloop" /\ loc[r].i <= Len(hist[loc[r].lp]))
                 \/ pc[r] = "init"
 StepOf(r) ==
   \/ InitStart(r) \/ InitLp(r) \/ InitDone(r) \/ SchedAlloc(r) \/ SchedPush(r) \/ SchedSent(r) \/ SchedEnd(r) \/ DrainStep(r) \/ PopStep(r) \/ PopNone(r)
   \/ FlagStep(r) \/ FreeStep(r) \/ RbBeginStep(r) \/ RbEntry(r) \/ RbInsert(r) \/ RbRestore(r) \/ RbEndStep(r) \/ ExecStep(r) \/ ExecDone(r)
-  \/ CkptStep(r) \/ FossilStep(r) \/ FossilFree(r)
-Idle(r) == pc[r] = "idle" /\ TW!InboxOf(r) = {} /\ TW!HeapOf(r) = {}
+  \/ CkptStep(r) \/ FossilStep(r) \/ FossilFree(r) \/ RecvStep(r) \/ RxAlloc(r) \/ RxPush(r) \/ RAntiStep(r) \/ EMatchStep(r) \/ Free2Step(r) \/ RbAnti(r)
+Idle(r) == pc[r] = "idle" /\ TW!InboxOf(r) = {} /\ TW!HeapOf(r) = {} /\ Receivable(r) = {}
 Private == {r \in ThreadsC : ~IsShared(r) /\ ~Idle(r) /\ ENABLED StepOf(r)}
 Next ==
   /\ err = <<>>
@@ -327,7 +417,9 @@ Spec == Init /\ [][Next]_vars
 
 (* ---------------- properties ---------------- *)
 NoCheckFails == err = <<>>
-Quiescent == \A r \in ThreadsC : Idle(r)
+\* the bounded pools of buffer and network identities never run dry (otherwise behaviours would be cut silently)
+PoolSufficient == PoolOk /\ NetOk
+Quiescent == (\A r \in ThreadsC : Idle(r)) /\ DOMAIN net = {}
 
 ParHist(p) == LET es == SelectSeq(hist[p], LAMBDA e : e.k = "e" /\ e.ty # 65534) IN
               [i \in 1..Len(es) |-> [t |-> es[i].t, ty |-> es[i].ty, pid |-> es[i].pid, s |-> es[i].g.s]]
@@ -335,5 +427,20 @@ ParHist(p) == LET es == SelectSeq(hist[p], LAMBDA e : e.k = "e" /\ e.ty # 65534)
 \* (events released by fossil collection were compared with the sequential history when they were released)
 C01_FinalEqualsSequential == Quiescent => \A p \in LPs : cpos[p] <= Len(SeqHist[p]) /\ ParHist(p) = SubSeq(SeqHist[p], cpos[p] + 1, Len(SeqHist[p]))
 \* C06: at quiescence every live buffer is a valid processed event (nothing cancelled is left, nothing is lost)
-C06_NothingLeft == Quiescent => \A m \in DOMAIN msg : TW!InHistE(m) /\ ~TW!HasAnti(msg[m].flags)
+\* (the sender's copy of a remote send stays as a mark of its history, or waits for the GVT once cancelled; no anti-message stays parked)
+IsRemoteMark(m) == msg[m].rem /\ msg[m].inq = "none" /\ \E p \in LPs : TW!IdxOf(p, "r", m) # {}
+C06_NothingLeft == Quiescent => /\ \A m \in DOMAIN msg : \/ TW!InHistE(m) /\ ~TW!HasAnti(msg[m].flags)
+                                                         \/ IsRemoteMark(m)
+                                                         \/ msg[m].rem /\ msg[m].inq = "atgvt" /\ \A p \in LPs : TW!IdxOf(p, "r", m) = {}
+                                /\ \A p \in LPs : early[p] = {}
+\* C02: at quiescence the remote sends that were not cancelled and the processed events that arrived from the network are in bijection
+C02_RemoteExactlyOnce ==
+  Quiescent => /\ \A m \in DOMAIN msg : IsRemoteMark(m) => Cardinality({x \in DOMAIN msg : TW!FromNet(x) /\ TW!SameRemote(m, x)}) = 1
+               /\ \A x \in DOMAIN msg : TW!FromNet(x) => Cardinality({m \in DOMAIN msg : IsRemoteMark(m) /\ TW!SameRemote(m, x)}) = 1
+\* reachability probes (expected to be VIOLATED: used to show that a scenario is reachable in a configuration)
+Probe_NoRemoteAntiRollback == \A r \in ThreadsC : ~(pc[r] = "rbbegin" /\ loc[r].after = "free2")
+Probe_NoRemoteAntiAfterProcessing == \A r \in ThreadsC : pc[r] = "ranti" => ~\E i \in 1..Len(hist[loc[r].lp]) : hist[loc[r].lp][i].k = "e" /\ msg[hist[loc[r].lp][i].m].t = msg[loc[r].m].t
+Probe_X == ~((\E i \in 1..Len(hist[1]) : hist[1][i].k = "e" /\ hist[1][i].t = 4) /\ \E nm \in DOMAIN net : net[nm].kind = "anti")
+Probe_NoEarlyAnti == \A p \in LPs : early[p] = {}
+Probe_NoEarlyAntiWhileEventInFlight == \A p \in LPs : \A am \in early[p] : ~\E q \in ThreadsC : rx[q].kind = "ev" /\ rx[q].sq = msg[am].sq
 =============================================================================
